@@ -134,8 +134,7 @@ Section Oracles.
     id = 0 \/ In id (ran st) -> In b B -> exists v, alookup (attrs_of st id) b = Some v.
   Proof. exact (builtins_in_every_module SrcId Body loader compiler B FM main_attrs C14_side_main_has_builtins). Qed.
 
-  (* a fresh module has the names of init_built_in_globals and NOTHING else: the names of `main_only`
-     (core.yl classes not re-exported) are undefined in every imported module (finding error_classes_not_in_modules) *)
+  (* a fresh module has the names of init_built_in_globals and NOTHING else (so `main_only` below must be empty) *)
   Theorem C14_fresh_module_has_only_builtins : forall st p s b,
     dead st = None -> alookup (reg st) p = None -> loader p = LoadOk s -> compiler p s = CompOk b ->
     List.length (frames st) <> FM ->
@@ -184,19 +183,17 @@ Theorem C14_import_at_frame_limit_refuted :
     /\ snd (w_step (fst (w_step st EPushHandler)) (EStartImport "q")) = OCaught (XErr (mkerr KImport [cyc_msg "q"])).
 Proof. exact import_at_frame_limit_refuted. Qed.
 
-Theorem C14_main_only_name_not_in_module_refuted :
-  snd (w_step w_init (EGetGlobal "RuntimeError")) = OValue (VBuiltin "RuntimeError")
-  /\ snd (w_step (w_run w_init [EStartImport "m"]) (EGetGlobal "RuntimeError"))
-     = ODead (XErr (mkerr KName [undefined_variable "RuntimeError"])).
-Proof. exact main_only_name_not_in_module_refuted. Qed.
+(* --- every name module main has at start-up is defined by init_built_in_globals, hence in every module --- *)
+Theorem C14_side_no_main_only_names : main_only = [].
+Proof. vm_compute; reflexivity. Qed.
 
-(* with the CURRENT sources: which start-up names of main an imported module does not get (empty once fixed) *)
-Theorem C14_main_only_names_today : forall c, In c main_only -> In c C /\ ~ In c B.
+Theorem C14_startup_names_in_every_module :
+  forall (SrcId Body : Type) (loader : path -> load_result SrcId) (compiler : path -> SrcId -> comp_result Body) evs id b,
+  let st := run_events SrcId Body loader compiler B FM (init_state main_attrs) evs in
+  id = 0 \/ In id (ran st) -> In b (B ++ C) -> exists v, alookup (attrs_of st id) b = Some v.
 Proof.
-  intros c H. unfold main_only in H. apply filter_In in H. destruct H as [H1 H2]. split; auto.
-  intros Hin. apply negb_true_iff in H2. assert (existsb (String.eqb c) B = true).
-  { apply existsb_exists. exists c. split; auto. apply String.eqb_refl. }
-  congruence.
+  exact (fun SrcId Body loader compiler evs id b =>
+           startup_names_in_every_module SrcId Body loader compiler B C FM evs id b C14_side_no_main_only_names).
 Qed.
 
 Theorem C14_reimport_after_failed_body_reports_cycle :
@@ -234,6 +231,6 @@ Print Assumptions C14_side_import_shape.
 Print Assumptions C14_side_active_module_sites.
 Print Assumptions C14_side_builtin_names_known.
 Print Assumptions C14_import_at_frame_limit_refuted.
-Print Assumptions C14_main_only_name_not_in_module_refuted.
-Print Assumptions C14_main_only_names_today.
+Print Assumptions C14_side_no_main_only_names.
+Print Assumptions C14_startup_names_in_every_module.
 Print Assumptions C14_reimport_after_failed_body_reports_cycle.
